@@ -387,6 +387,20 @@ theorem impl_build (p : Prog) : Impl (build p) (ser p) := by
   | noOctets tag k ih => exact ih
   | optBool v d k ih => exact impl_congr (impl_comp (impl_asn1 1 (impl_add _)) ih) (fun _ => rfl)
   | noBool d k ih => exact ih
+  | gtime t k ih =>
+    by_cases hy : t.year < 0 ∨ t.year > 9999
+    · have : Impl (fun b => if t.year < 0 ∨ t.year > 9999 then { b with err := true }
+            else addASN1 b 0x18 (fun c => add c (ZV.Time.format ZV.Time.layoutGen t)))
+          (ZV.Time.CB.addGeneralizedTime t) := by
+        simp only [hy, if_true, ZV.Time.CB.addGeneralizedTime]
+        exact impl_err
+      exact impl_congr (impl_comp this ih) (fun _ => rfl)
+    · have : Impl (fun b => if t.year < 0 ∨ t.year > 9999 then { b with err := true }
+            else addASN1 b 0x18 (fun c => add c (ZV.Time.format ZV.Time.layoutGen t)))
+          (ZV.Time.CB.addGeneralizedTime t) := by
+        simp only [hy, if_false, ZV.Time.CB.addGeneralizedTime]
+        exact impl_asn1 0x18 (impl_add _)
+      exact impl_congr (impl_comp this ih) (fun _ => rfl)
 
 theorem buildBytes_eq_ser (p : Prog) : buildBytes p = ser p := by
   have h := impl_build p
